@@ -243,7 +243,7 @@ def synth(rec, T, hits, mode, grouped, ks, caller=None):
         w["caller"] = list(caller)
 
     mreg, _ = hitx.registries(T, hits, mode, grouped)
-    size = len(hits) * 100 + hitx.MODES.index(mode)
+    size = len(hits) * 100 + hitx.ALL_MODES.index(mode)
 
     def scan(k):
         if caller:
